@@ -28,7 +28,9 @@ def universe(size):
             P.ESubst(P.MetaVar(0), P.EVar(0), P.App(P.Symbol('c'), P.EVar(0))), P.SSubst(P.MetaVar(0), P.SVar(0), P.EVar(1)),
             # pairs that print identically but differ in freshness (stale verdicts keyed by the printed form)
             P.neg(P.MetaVar(0, e_fresh=(P.EVar(0),))), P.neg(P.MetaVar(0)), P.neg(P.Symbol('x0')), P._and(P.Symbol('x1'), P.MetaVar(1, e_fresh=(P.EVar(1),))),
-            P._and(P.EVar(1), P.MetaVar(1))]
+            P._and(P.EVar(1), P.MetaVar(1)),
+            # twins by class (equal field values) and by the constraint list that is easiest to forget
+            P.neg(P.SVar(0)), P.neg(P.EVar(1)), P.neg(P.SVar(1)), P.MetaVar(0, app_ctx_holes=(P.EVar(0),))]
     for a in pool:
         for b in pool:
             C.append(P.Implies(a, b))
@@ -150,6 +152,12 @@ def violated_constraint(ep, ed):
     return None
 
 
+def refpat_has_subst(t) -> bool:
+    if t[0] in ('esub', 'ssub'):
+        return True
+    return any(refpat_has_subst(x) for x in t[1:] if isinstance(x, tuple) and x and isinstance(x[0], str))
+
+
 def inst_chunk(args):
     rows, size = args
     from . import bridge
@@ -158,6 +166,9 @@ def inst_chunk(args):
     C = universe(size)
     plugs = [P.EVar(0), P.EVar(1), P.SVar(0), P.MetaVar(1), P.neg(P.MetaVar(0)), P.Exists(0, P.EVar(0)),
              P._and(P.EVar(0), P.MetaVar(2)), P.neg(P.SVar(0)), P.bot()]
+    # for premises that carry a pending substitution: a notation that BINDS the substituted variable around its argument
+    import proof_generation.proofs.substitution as Sb
+    binder_plug = Sb.forall(0)(P.App(P.Symbol('f'), P.EVar(0)))
     out = {'evals': 0, 'applicable': 0, 'inapplicable': 0, 'returned': 0, 'viol': []}
     its = interpreters()
     for i in rows:
@@ -167,6 +178,8 @@ def inst_chunk(args):
         keysets = [ks for r in (1, 2) for ks in itertools.combinations(ids, r)]
         for ks in keysets:
             pl = plugs if len(ks) == 1 else plugs[:6]
+            if len(ks) == 1 and refpat_has_subst(ep):
+                pl = plugs + [binder_plug, P.Exists(1, P.App(P.EVar(0), P.EVar(1)))]
             for vals in itertools.product(pl, repeat=len(ks)):
                 delta = dict(zip(ks, vals))
                 ed = {k: bridge.expand(v) for k, v in delta.items()}
